@@ -24,7 +24,7 @@ PROBES = ['fault_inside_pushed_block', 'handler_ran_after_fault',
           'with_only_new_md', 'subtemplate_pushed_defaults',
           'tree_expand_all_transient', 'recursion_guard_fired',
           'in_batch_param_site', 'sort_key_cmp_site', 'attr_site',
-          'falsy_mapping_pushed',
+          'falsy_mapping_pushed', 'tree_header_footer_document',
           'fault_between_in_push_and_try', 'let_arg_fault', 'persistent_fault']
 RULE = ('programs: seeded ASTs over text/var/if/elif/else/unless/call/in '
         '(lists, tuples, iterators, lazy lists, mappings, batches, sort, '
@@ -323,6 +323,20 @@ class Gen:
             opts['branches_expr'] = 'kidsx'
         elif r.random() < 0.3:
             opts['branches'] = 'kids_m'
+        # header / footer documents: sub-templates the tag calls itself,
+        # with keyword arguments, around the children of an expanded node
+        for opt in ('header', 'footer'):
+            if 'sub' in self.enabled and r.random() < 0.35 and \
+                    len(self.subs) < 4:
+                name = 'T%d' % (len(self.subs) + 1)
+                self.subs[name] = None
+                saved = self.enabled
+                self.enabled = [k for k in saved if k not in ('sub', 'tree')]
+                b = self.body(self.maxdepth - 1)
+                self.enabled = saved
+                self.subs[name] = {'body': b, 'defaults': r.choice(
+                    [{}, {'dflt': 'd'}])}
+                opts[opt] = name
         self.script[t] = {'treeroot': self.tree_nodes(t, 0, [0])}
         if r.random() < 0.6:
             self.req['expand_all'] = 1
@@ -650,6 +664,8 @@ def _run_case(case):
                 probe('finally_ran_with_pending_exception')
             if len(env.fired) > 1:
                 probe('pair_second_fault_fired')
+        if ' header="' in prep['src'] or ' footer="' in prep['src']:
+            probe('tree_header_footer_document')
         if any(e.md is not None and any(
                 isinstance(x, E.Map) and not len(x) for x in e.data)
                 for e in env.log):
